@@ -60,7 +60,7 @@ WellFormed(tok) ==   \* the JSON scalar tokens the property quantifies over
 
 \* ------------------------------------------------------------- contract
 Same == [k |-> "same"]      \* JSON null: an acceptable success leaves the value alone or zeroes it
-Zero(t) == IF t = "bytes" THEN <<>> ELSE Int0
+Zero(t) == IF t \in {"bytes", "b64", "bytestext"} THEN <<>> ELSE Int0
 
 Kind(t) ==
   CASE t \in {"i64", "u64", "stamp", "unix", "nano"} -> "dec"
@@ -93,7 +93,9 @@ Denote(t, tok) ==
       [] OTHER -> None
   ELSE IF tok = NullT THEN Same
   ELSE IF tok \in {TrueT, FalseT} THEN None
-  ELSE IF Quoted(tok) THEN (IF PlainStr(Inner(tok)) THEN TextDenote(kind, Inner(tok)) ELSE None)
+  ELSE IF Quoted(tok) THEN
+         LET c == StrContent(Inner(tok)) IN          \* escapes stand for the characters they name
+         IF c.k = "ok" THEN TextDenote(kind, c.s) ELSE IF c.k = "free" THEN Free ELSE None
   ELSE BareDenote(kind, tok)
 
 Explains(d, t, prev, v) ==  \* is v the value that denotation d stands for?
@@ -111,6 +113,27 @@ DecOK(t, tok, prev, out, v) ==
   \/ out = "err"
   \/ out = "ok" /\ Explains(Denote(t, tok), t, prev, v)
 RtOK(out, v, back) == out = "ok" /\ back = v
+
+(* sql.Scanner: a source value of any kind database/sql may hand over        *)
+(* (int64, float64, bool, bytes, string, time, nil), given as its text.  The  *)
+(* kinds the adapter is made for (native) are exact-or-error.  For the other  *)
+(* kinds a success must give the number the source stands for, or ignore the  *)
+(* source (variable unchanged or zero) - never some other value.              *)
+NativeKind(t, kind) ==
+  CASE t = "b64"                        -> kind \in {"bytes", "string"}
+    [] t \in {"scannano", "scanunix"}   -> kind = "int64"
+    [] t \in {"sqlstamp", "sqltime"}    -> kind = "time"
+    [] OTHER                            -> FALSE
+ScanDenote(t, kind, tok) ==
+  IF kind = "nil" THEN Same
+  ELSE IF kind = "bool" THEN None
+  ELSE IF t = "b64" THEN (IF kind \in {"bytes", "string"} THEN B64Denote(tok) ELSE None)
+  ELSE NumDenote(tok)
+ScanOK(t, kind, tok, prev, out, v) ==
+  \/ out = "err"
+  \/ /\ out = "ok"
+     /\ \/ Explains(ScanDenote(t, kind, tok), t, prev, v)
+        \/ ~NativeKind(t, kind) /\ (v = prev \/ v = Zero(t))
 
 \* --------------------------------------------------------------- design
 Fail  == [ok |-> FALSE, v |-> 0]
